@@ -161,6 +161,17 @@ func c11Probe(di int) []string {
 			}
 		}
 	}
+	// the first byte of a longer prefix, alone, inside a default or a key is an ordinary character
+	if len(d[0]) > 1 {
+		in := d[0] + "fee" + d[2] + d[0][:1] + "5" + d[1] + " and " + d[0] + "cost" + d[0][:1] + "usd" + d[1]
+		want := d[0][:1] + "5 and 7"
+		var out string
+		if pn := guard(func() { out = mk(map[string]string{"cost" + d[0][:1] + "usd": "7"}).Resolve(in) }); pn != "" {
+			fail = append(fail, fmt.Sprintf("Resolve(%q) panicked: %s", in, pn))
+		} else if out != want {
+			fail = append(fail, fmt.Sprintf("Resolve(%q) = %q, expected %q", in, out, want))
+		}
+	}
 	chain := map[string]string{}
 	for i := 0; i < 40; i++ {
 		chain[fmt.Sprint("stage", i)] = "+" + d[0] + fmt.Sprint("stage", i+1) + d[1] + "-"
